@@ -59,6 +59,8 @@ def run(chk: Check, ctx: Any) -> None:
         "depend on internal offsets (R2), coroutine names are registered under the routine index (R3), JSON leaf types shown in the "
         "docs are accepted by the reader's operations (R4), and no error path exits with status 0 or swallows an exception (R5). "
         "End-to-end behaviour of the decompiled program inherits C02."
+        " (R6, interpreter-based) build_routines_json and read_routines are evaluated on compiled programs; jump parameters must be 1-based positions and the d"
+        "ocument must read back to the same routine set and behaviour."
     )
     chk.rule("C15-R6", "build_routines_json and read_routines interpreted on compiled programs (all parameter kinds, all routine kinds, alias routines, dropped jumps, jumps between routines): the structure is JSON, every jump parameter is the 1-based position of its target counted across routines, the decompile side reads back the same routine table, names and behaviour, and the program it prints behaves like the source")
     chk.rule("C15-R1", "type tags / keys written by cli.compile = read by cli.decompile = documented in docs/cli_api_usage.rst; each tag maps to the same parameter class and field on both sides")
